@@ -29,6 +29,8 @@ FIELDS = ["signal", "idler", "pump", "crystal_setup", "pp", "signal_waist_positi
 WRAPPERS = ["as_config", "with_optimum_idler", "assign_optimum_idler", "with_optimum_periodic_poling", "with_poling_period",
             "assign_optimum_crystal_theta", "with_optimum_crystal_theta", "optimum_crystal_theta", "optimum_idler", "delta_k",
             "joint_spectrum", "counts_coincidences", "counts_singles_signal", "counts_singles_idler", "efficiencies"]
+# free functions that only chain such calls: (file, name); a parameter of type &SPDC is an SPDC record
+FREE = [("src/spdc/efficiencies.rs", "efficiencies")]
 ERASED = {"clone", "to_owned", "into", "as_ref"}
 MAX_STMTS = 4
 
@@ -37,10 +39,11 @@ class W:
     def __init__(self, path, it):
         self.path, self.it = path, it
         self.oracles = []       # [(name, [kinds], result kind, fallible)]
+        self.kinds = {}         # parameter -> spdc (a `&SPDC` parameter of a free function); default obj
         self.fallible = False
 
     def fail(self, what, e=None):
-        raise Untranslatable(self.path, self.it.span[0], f"SPDC::{self.it.name} is not a thin forwarder: {what}" + (f" in {str(e)[:140]}" if e is not None else ""))
+        raise Untranslatable(self.path, self.it.span[0], f"{'::'.join(self.it.container + [self.it.name])} is not a thin forwarder: {what}" + (f" in {str(e)[:140]}" if e is not None else ""))
 
     def oracle(self, name, kinds, res, fallible=False):
         for o in self.oracles:
@@ -63,7 +66,7 @@ class W:
             if segs == ["self"]:
                 return cur, "spdc"
             if len(segs) == 1 and segs[0] in env:
-                return env[segs[0]], "obj"
+                return env[segs[0]], self.kinds.get(segs[0], "obj")
             if len(segs) == 2 and segs[0][0].isupper() and segs[1][0].isupper():
                 return self.oracle("_".join(segs), [], "obj"), "obj"       # a unit-like constant, e.g. PeriodicPoling::Off
             self.fail("unknown name " + "::".join(segs), e)
@@ -77,10 +80,10 @@ class W:
             if name in ERASED and not args:
                 return self.ev(recv, cur, env)
             rv, rk = self.ev(recv, cur, env)
-            if rk == "spdc":
-                self.fail(f"method {name} on self in value position", e)
+            if rk == "spdc" and recv == ("path", ["self"]):
+                self.fail(f"method {name} on self in value position", e)     # it could mutate self
             avs = [self.ev(a, cur, env) for a in args]
-            o = self.oracle(name, ["obj"] + [ak for _, ak in avs], "obj")
+            o = self.oracle(name, [rk] + [ak for _, ak in avs], "obj")
             return "(" + " ".join([o, rv] + [a for a, _ in avs]) + ")", "obj"
         if k == "call" and e[1][0] == "path":
             segs = [s for s in e[1][1] if s not in ("crate", "super")]
@@ -208,28 +211,43 @@ def gen_wrappers(repo, out):
         lines.append(f"Definition set_{f} (s : spdc) (v : obj) : spdc :=\n  mk_spdc " +
                      " ".join("v" if g == f else f"({g} s)" for g in FIELDS) + ".")
     lines.append("")
+    todo = []
     for nm in WRAPPERS:
         its = [i for i in items if i.kind == "fn" and i.name == nm and "SPDC" in i.container]
         if len(its) != 1:
             raise Untranslatable(path, 0, f"SPDC::{nm} not found exactly once")
-        it = its[0]
+        todo.append((path, its[0], "wrappers:SPDC::" + nm, f"SPDC_{nm}_gen", f"SPDC::{nm}", True))
+    for rel, nm in FREE:
+        fpath = os.path.join(repo, rel)
+        its = [i for i in parse_file(fpath) if i.kind == "fn" and i.name == nm and not i.container]
+        if len(its) != 1:
+            raise Untranslatable(fpath, 0, f"{nm} not found exactly once")
+        todo.append((fpath, its[0], "wrappers:" + nm, f"{nm}_gen", f"{nm} ({rel})", False))
+    for fpath, it, key, cname, title, method in todo:
         if it.error or it.body is None:
-            raise Untranslatable(path, it.span[0], f"SPDC::{nm}: body does not parse")
-        out.span("wrappers:SPDC::" + nm, it)
-        w = W(path, it)
+            raise Untranslatable(fpath, it.span[0], f"{title}: body does not parse")
+        out.span(key, it)
+        w = W(fpath, it)
         w.kind, w.passthrough = "obj", False
         params = list(it.params)
-        if not params or params[0][0] != ("pbind", "self", False):
-            w.fail("first parameter is not self")
+        if method:
+            if not params or params[0][0] != ("pbind", "self", False):
+                w.fail("first parameter is not self")
+            params = params[1:]
         env = {}
         pnames = []
-        for pat, _ty in params[1:]:
+        for pat, ty in params:
             if pat[0] != "pbind":
                 w.fail("parameter pattern")
-            if pat[1] in FIELDS or pat[1].startswith("set_") or pat[1] in ("self", "obj", "spdc"):
+            if pat[1] in FIELDS or pat[1].startswith("set_") or pat[1] in ("self", "obj"):
                 w.fail("parameter name clashes with the record model: " + pat[1])
             env[pat[1]] = pat[1]
-            pnames.append(pat[1])
+            tyc = (ty or "").replace(" ", "")
+            if not method and tyc == "&SPDC":
+                w.kinds[pat[1]] = "spdc"
+            elif "SPDC" in tyc.replace("SPDCError", ""):
+                w.fail("parameter of an SPDC type other than &SPDC: " + tyc)
+            pnames.append((pat[1], w.kinds.get(pat[1], "obj")))
         stmts = [s for s in it.body[1]]
         if len([s for s in stmts if s[0] != "use"]) > MAX_STMTS:
             w.fail(f"more than {MAX_STMTS} statements")
@@ -243,10 +261,11 @@ def gen_wrappers(repo, out):
         if w.fallible:
             rty = f"option {rty}"
         doc = "callees, in order of first use: " + (", ".join(o[0] for o in w.oracles) or "(none)")
-        lines.append(f"(* SPDC::{nm} — {doc} *)\n"
-                     f"Definition SPDC_{nm}_gen {' '.join(binders)} (self : spdc){''.join(f' ({p} : obj)' for p in pnames)} : {rty} :=\n  {term}.\n")
+        selfb = " (self : spdc)" if method else ""
+        lines.append(f"(* {title} — {doc} *)\n"
+                     f"Definition {cname} {' '.join(binders)}{selfb}{''.join(f' ({p} : {k})' for p, k in pnames)} : {rty} :=\n  {term}.\n")
     lines.append("End Wrappers.\n")
-    names = ["mk_spdc"] + FIELDS + ["set_" + f for f in FIELDS] + [f"SPDC_{nm}_gen" for nm in WRAPPERS]
+    names = ["mk_spdc"] + FIELDS + ["set_" + f for f in FIELDS] + [f"SPDC_{nm}_gen" for nm in WRAPPERS] + [f"{nm}_gen" for _, nm in FREE]
     lines.append("\n".join(f"Arguments {n} {{obj}}." for n in names) + "\n")
     out.write("Wrappers.v", "\n".join(lines))
 
